@@ -291,14 +291,14 @@ check("C07",
       "refers only to chosen candidates, has the multiplicities the decision dictates and no self pairing that one exchange removes; "
       "the multiset is kept, the self-pairing count never rises, the search terminates, the closed form of the tiled multiplicities is "
       "exact; the variant that mixes inside columns is rejected by TLC. All eight configuration classes (subset / integer / binary / "
-      "real and mate variants, both generator kinds), select() of ten protocol families x four encodings with exact and genetic "
+      "real and mate variants, both generator kinds), select() of eighteen protocol families (EBV, GEBV, weighted / generalised weighted GEBV, random, MGR, MEH, OHV, UC, family EBV, OCS, EMBV in four encodings; OPV, genotype builder, PAFD, PAU, MOGS as subset protocols; L2 norm) with exact and genetic "
       "optimisers, permuted / relabelled twin populations and multi-objective protocols with a declared linear preference are "
       "executed; TLC validates shape, membership, multiplicities, 1-exchange optimality, configuration metadata, the cross map "
       "against the ordered upper triangle, the truncation choice (best k by the criterion), equivariance under permutation and the "
       "preference choice (argmax of the declared transformation over a non-dominated front).",
       "Integer / binary multiplicities follow the tiling of the option list; real weights returned by optimisers are rounded to 1e-6 "
       "with the matching allowance; truncation is asserted for separable criteria with the sorting optimiser and the hill climbers; "
-      "L2NormGenomic*Selection cannot build its problem (known finding); EMBV, OPV, family, OCS, PAFD/PAU/MOGS protocols are not driven.",
+      "L2NormGenomic*Selection cannot build its problem (known finding).",
       "TLA+ spec (XConfig.tla) exhaustive TLC model check with a rejected wrong variant + TLC trace validation of recorded configurations, cross maps and choices (XConfig_Trace.tla)",
       "DESIGN.md C07")
 
